@@ -7,6 +7,7 @@ import (
 	"time"
 
 	enc "github.com/named-data/ndnd/std/encoding"
+	spec "github.com/named-data/ndnd/std/ndn/spec_2022"
 )
 
 var _ list.List
@@ -209,6 +210,10 @@ func specPitcsClockAt(i int) time.Time { return specPitcsClockAt(i) }
 //@   pure
 
 //@ func (time.Time).Add
+//@   trusted
+//@   pure
+
+//@ func (time.Time).UnixNano
 //@   trusted
 //@   pure
 
@@ -592,6 +597,14 @@ type ghostPitcsEntrySlice = []*nameTreePitEntry
 //@   loop 1 invariant fresh(records)
 //@   loop 1 invariant forallIn(0, len(records), func(i int) bool { return records[i] != nil && exists(func(k uint64) bool { return mapHas(e.outRecords, k) && e.outRecords[k] == records[i] }) })
 
+// pitcsLifetime: the lifetime of an Interest, 4 s when it carries none (NDN default InterestLifetime).
+func pitcsLifetime(interest *spec.Interest) time.Duration {
+	if interest.InterestLifetimeV != nil {
+		return *interest.InterestLifetimeV
+	}
+	return 4000 * time.Millisecond
+}
+
 // InsertInRecord: the in-record of the face is created or updated with the Interest's nonce; the second result tells whether
 // it existed, the third is the nonce it held before; a new record keeps a private copy of the incoming PIT token; the
 // records of the other faces are not touched.
@@ -602,6 +615,7 @@ type ghostPitcsEntrySlice = []*nameTreePitEntry
 //@   modifies bpe.inRecords[*], bpe.inRecords[face].LatestNonce, bpe.inRecords[face].LatestTimestamp, bpe.inRecords[face].LatestInterest, bpe.inRecords[face].ExpirationTime, ghostPitcsClock
 //@   ensures result0 != nil && mapHas(bpe.inRecords, face) && bpe.inRecords[face] == result0 && result0.LatestNonce == *interest.NonceV
 //@   ensures result1 == old(mapHas(bpe.inRecords, face))
+//@   ensures [deadline-restarts] ghostPitcsClock == old(ghostPitcsClock)+2 && result0.LatestTimestamp == specPitcsClockAt(old(ghostPitcsClock)) && result0.ExpirationTime == specPitcsClockAt(old(ghostPitcsClock)+1).Add(pitcsLifetime(interest))
 //@   ensures result1 ==> result0 == old(bpe.inRecords[face]) && result2 == old(bpe.inRecords[face].LatestNonce)
 //@   ensures !result1 ==> fresh(result0) && result2 == 0 && result0.Face == face && len(result0.PitToken) == len(incomingPitToken) && forallIn(0, len(incomingPitToken), func(i int) bool { return result0.PitToken[i] == incomingPitToken[i] })
 //@   ensures forall(func(k uint64) bool { return k != face ==> mapHas(bpe.inRecords, k) == old(mapHas(bpe.inRecords, k)) && bpe.inRecords[k] == old(bpe.inRecords[k]) })
@@ -613,6 +627,7 @@ type ghostPitcsEntrySlice = []*nameTreePitEntry
 //@   modifies e.outRecords[*], e.outRecords[face].LatestNonce, e.outRecords[face].LatestTimestamp, e.outRecords[face].LatestInterest, e.outRecords[face].ExpirationTime, ghostPitcsClock
 //@   ensures result != nil && mapHas(e.outRecords, face) && e.outRecords[face] == result && result.LatestNonce == *interest.NonceV
 //@   ensures old(mapHas(e.outRecords, face)) ==> result == old(e.outRecords[face])
+//@   ensures [deadline-restarts] ghostPitcsClock == old(ghostPitcsClock)+2 && result.LatestTimestamp == specPitcsClockAt(old(ghostPitcsClock)) && result.ExpirationTime == specPitcsClockAt(old(ghostPitcsClock)+1).Add(pitcsLifetime(interest))
 //@   ensures !old(mapHas(e.outRecords, face)) ==> fresh(result) && result.Face == face
 //@   ensures forall(func(k uint64) bool { return k != face ==> mapHas(e.outRecords, k) == old(mapHas(e.outRecords, k)) && e.outRecords[k] == old(e.outRecords[k]) })
 //@   ensures forall(func(k uint64) bool { return mapHas(e.outRecords, k) ==> e.outRecords[k] != nil })
